@@ -981,7 +981,7 @@ impl<'a> Gen<'a> {
                 ExprSpec::b(op, self.expr(bits, d), divisor)
             }
             5 if bits == 1 => {
-                let w = *self.rng.pick(&[8usize, 16, 32, 64]);
+                let w = *self.rng.pick(&[8usize, 16, 32, 64, 128, 256]);
                 let op = *self.rng.pick(&["cmpeq", "cmpneq", "cmpltu", "cmplts"]);
                 ExprSpec::b(op, self.expr(w, d), self.expr(w, d))
             }
